@@ -50,6 +50,9 @@ func c18Body(r *Run) {
 	ps := gochannel.NewGoChannel(gochannel.Config{OutputChannelBuffer: int64(simrt.Pick(t, 0, 1, 3))}, nil)
 	replyPub := NewScriptedPublisher(r, "reply-publisher")
 	replyPub.Inner = ps
+	for i := t.Skewed(4); i > 0; i-- {
+		replyPub.FailAt[1+t.Int(8)] = PubErr // transient failures of the reply publisher
+	}
 	finished := map[int]int{}
 	backend, err := requestreply.NewPubSubBackend[c18Result](requestreply.PubSubBackendConfig{
 		Publisher:              replyPub,
@@ -71,6 +74,9 @@ func c18Body(r *Run) {
 	var callers []*c18Caller
 	for i := 0; i < nCallers; i++ {
 		c := &c18Caller{id: i, behaviour: t.Int(5)}
+		if timeout != nil && t.Chance(1, 4) {
+			c.behaviour = 5 // never reads and never cancels: only ListenForReplyTimeout ends the listener
+		}
 		switch t.Int(4) {
 		case 1:
 			c.failFirst = 1 + t.Int(2)
@@ -81,9 +87,9 @@ func c18Body(r *Run) {
 		c.lateAfter = time.Duration(100+t.Int(400)) * time.Millisecond
 		callers = append(callers, c)
 	}
-	r.Describe("%d concurrent requests on one reply topic, AckCommandErrors=%v, ListenForReplyTimeout=%v", nCallers, ackErrors, timeout)
+	r.Describe("%d concurrent requests on one reply topic, AckCommandErrors=%v, ListenForReplyTimeout=%v, reply publisher fails on calls %v", nCallers, ackErrors, timeout, replyPub.FailAt)
 	for _, c := range callers {
-		r.Describe("caller %d: behaviour %d (0 SendWithReply, 1 drain then cancel, 2 read one then cancel, 3 never read then cancel, 4 cancel before reply), handler fails first %d (all=%v), handler takes %v, cancels after %v", c.id, c.behaviour, c.failFirst, c.failAll, c.delay, c.lateAfter)
+		r.Describe("caller %d: behaviour %d (0 SendWithReply, 1 drain then cancel, 2 read one then cancel, 3 never read then cancel, 4 cancel before reply, 5 never read, never cancel: time-out only), handler fails first %d (all=%v), handler takes %v, cancels after %v", c.id, c.behaviour, c.failFirst, c.failAll, c.delay, c.lateAfter)
 	}
 
 	rig := newRouterRig(r, 30*time.Second)
@@ -130,7 +136,7 @@ func c18Body(r *Run) {
 			}
 		}
 	}
-	maxAttempts := 4
+	maxAttempts := 4 + len(replyPub.FailAt)
 	herr := proc.AddHandlers(requestreply.NewCommandHandlerWithResult[c18Cmd, c18Result]("rr-handler", backend,
 		func(ctx context.Context, cmd *c18Cmd) (c18Result, error) {
 			c := callers[cmd.Caller]
@@ -207,6 +213,10 @@ func c18Body(r *Run) {
 		// R2 settlement policy
 		for _, h := range hs {
 			if h.pubCall == nil || h.pubCall.Err != nil {
+				// no reply was published for this delivery: the command must not be acked
+				if rawClosed(h.msg.Acked()) {
+					r.Fail("C18.R2", "the command was acked although its reply was never published", "caller %d attempt %d failed=%v replyPublishError=%v AckCommandErrors=%v", h.caller, h.attempt, h.failed, h.pubCall != nil, ackErrors)
+				}
 				continue
 			}
 			wantAck := !h.failed || ackErrors
@@ -265,6 +275,11 @@ func c18Body(r *Run) {
 					time.Sleep(c.lateAfter)
 					r.Fault("caller-cancel")
 					rcancel()
+				case 5:
+					r.Fault("caller-never-reads-never-cancels")
+					_ = rcancel
+					// keep the caller's context alive beyond the listener's time-out
+					time.Sleep(*timeout + 5*time.Second)
 				default:
 					r.Fault("caller-cancel-before-reply")
 					rcancel()
